@@ -14,6 +14,7 @@ import (
 	"os"
 	"runtime"
 	"runtime/debug"
+	"runtime/pprof"
 	"sort"
 	"strings"
 	"sync"
@@ -53,6 +54,15 @@ type Config struct {
 	mu     sync.Mutex
 	stubs  map[string]int
 	initOK map[string]bool
+}
+
+func workersDefault() int {
+	// the sandbox's 16 CPUs are 8 cores with two hardware threads: solver throughput peaks near 10 workers
+	n := runtime.NumCPU() * 5 / 8
+	if n < 1 {
+		n = 1
+	}
+	return n
 }
 
 func (c *Config) usedStub(name string) {
@@ -99,6 +109,7 @@ type Result struct {
 	Asserts      int            `json:"assertions_checked"`
 	Obligations  int            `json:"obligations_checked"`
 	Reached      map[string]int `json:"reached"`
+	QKinds       map[string]int `json:"query_kinds"`
 	Functions    []string       `json:"functions"`
 	Stubs        map[string]int `json:"stubs_called"`
 	Summaries    []SummaryInfo  `json:"summaries"`
@@ -139,7 +150,13 @@ type shared struct {
 
 func main() {
 	cfgPath := flag.String("config", "", "JSON config file")
+	prof := flag.String("cpuprofile", os.Getenv("GOSYM_PROFILE"), "write a CPU profile")
 	flag.Parse()
+	if *prof != "" {
+		f, _ := os.Create(*prof)
+		pprof.StartCPUProfile(f)
+		defer pprof.StopCPUProfile()
+	}
 	if *cfgPath == "" {
 		fmt.Fprintln(os.Stderr, "usage: gosym -config file.json")
 		os.Exit(2)
@@ -149,13 +166,13 @@ func main() {
 		fmt.Fprintln(os.Stderr, err)
 		os.Exit(2)
 	}
-	cfg := &Config{MaxSteps: 2000000, ConcLimit: 300, Workers: runtime.NumCPU(), TimeoutMs: 60000, Solver: "z3-new", MaxPaths: 5000000, MaxViol: 20, Validate: 400}
+	cfg := &Config{MaxSteps: 2000000, ConcLimit: 300, Workers: workersDefault(), TimeoutMs: 60000, Solver: "z3-new", MaxPaths: 5000000, MaxViol: 20, Validate: 400}
 	if err := json.Unmarshal(data, cfg); err != nil {
 		fmt.Fprintln(os.Stderr, "config:", err)
 		os.Exit(2)
 	}
 	cfg.stubs = map[string]int{}
-	debug.SetGCPercent(400)
+	debug.SetGCPercent(800)
 	start := time.Now()
 	if err := loadProgram(cfg); err != nil {
 		fmt.Fprintln(os.Stderr, "load:", err)
@@ -322,6 +339,7 @@ func worker(id int, cfg *Config, sh *shared, entry *ssa.Function) {
 		sh.mu.Unlock()
 	}
 
+	methCache := map[methKey]*ssa.Function{}
 	for {
 		sh.mu.Lock()
 		for len(sh.queue) == 0 && sh.active > 0 && !sh.stop {
@@ -344,7 +362,8 @@ func worker(id int, cfg *Config, sh *shared, entry *ssa.Function) {
 		sh.mu.Unlock()
 
 		run := &Run{cfg: cfg, pool: pool, solver: solver, extra: extra, prefix: item.prefix, model: item.model,
-			reached: map[string]int{}, funcs: map[string]bool{}, summ: summ, concFns: concFns}
+			reached: map[string]int{}, funcs: map[string]bool{}, summ: summ, concFns: concFns,
+			fnset: map[*ssa.Function]bool{}, methCache: methCache, intrCache: map[*ssa.Function]externalFn{}, intrKnown: map[*ssa.Function]bool{}}
 		end := runPath(cfg, run, entry)
 
 		sh.mu.Lock()
@@ -375,8 +394,14 @@ func worker(id int, cfg *Config, sh *shared, entry *ssa.Function) {
 		for k, v := range run.reached {
 			r.Reached[k] += v
 		}
-		for f := range run.funcs {
-			sh.funcs[f] = true
+		if r.QKinds == nil {
+			r.QKinds = map[string]int{}
+		}
+		for k, v := range run.qkinds {
+			r.QKinds[k] += v
+		}
+		for f := range run.fnset {
+			sh.funcs[infoOf(f).name] = true
 		}
 		r.Steps += int64(run.steps)
 		r.Asserts += run.asserts
@@ -453,7 +478,7 @@ func (r *Run) ensureModelQuiet() (m map[string]uint64) {
 
 // runPath executes the harness once along the run's decision prefix.
 func runPath(cfg *Config, run *Run, entry *ssa.Function) (end pathEnd) {
-	i := &interpreter{prog: cfg.prog, globals: map[*ssa.Global]*value{}, sizes: nil, run: run, initPkgs: map[string]bool{}}
+	i := &interpreter{prog: cfg.prog, globals: map[*ssa.Global]*value{}, sizes: nil, run: run, initPkgs: map[string]bool{}, regPool: map[*funcInfo][][]value{}}
 	if rt := cfg.prog.ImportedPackage("runtime"); rt != nil {
 		if t := rt.Type("errorString"); t != nil {
 			i.runtimeErrorString = t.Type()
@@ -567,7 +592,8 @@ func validateSummary(cfg *Config, pool *TermPool, solver *Solver, fn *ssa.Functi
 				env[fd.params[j].name] = uint64(c) & mask(kindWidth(k))
 			}
 		}
-		run := &Run{cfg: cfg, pool: pool, solver: solver, reached: map[string]int{}, funcs: map[string]bool{}}
+		run := &Run{cfg: cfg, pool: pool, solver: solver, reached: map[string]int{}, funcs: map[string]bool{},
+			fnset: map[*ssa.Function]bool{}, methCache: map[methKey]*ssa.Function{}, intrCache: map[*ssa.Function]externalFn{}, intrKnown: map[*ssa.Function]bool{}}
 		var got value
 		var failed string
 		func() {
@@ -576,7 +602,7 @@ func validateSummary(cfg *Config, pool *TermPool, solver *Solver, fn *ssa.Functi
 					failed = fmt.Sprint(r)
 				}
 			}()
-			i := &interpreter{prog: cfg.prog, globals: map[*ssa.Global]*value{}, run: run, initPkgs: map[string]bool{}}
+			i := &interpreter{prog: cfg.prog, globals: map[*ssa.Global]*value{}, run: run, initPkgs: map[string]bool{}, regPool: map[*funcInfo][][]value{}}
 			got = callSSA(i, nil, 0, fn, args, nil)
 		}()
 		if failed != "" {
